@@ -501,3 +501,98 @@ HARNESSES.append(dual_harness(
     lambda tier: [dict(n=n, nq=2, K=K, cls_order=o, fitfn=f) for n in ((2,) if tier == "quick" else (2, 3)) for K in (2, 3)
                   for o in ("sorted", "cyclic") for f in ("fit", "partial_fit")],
     UNITS[6:9], required_witnesses=("last_class_unobserved", "no_labels")))
+
+
+# ---------------------------------------------------------------- MixtureModelClassifier around a stub mixture model
+def _stub_mixture(d, n_components):
+    """sklearn GaussianMixture by contract: fit returns self; predict_proba rows (responsibilities) lie on the simplex and
+    are a function of the (concrete) row: chosen by the explorer from a menu of dyadic vectors, cached per row - so the
+    class frequencies stay linear in the symbolic sample weights"""
+    from sklearn.mixture import GaussianMixture
+    MENU = [(1.0, 0.0), (0.5, 0.5), (0.25, 0.75)]
+
+    class StubMixture(GaussianMixture):
+        def fit(self, X, y=None):
+            self.converged_ = True
+            return self
+
+        def predict_proba(self, X):
+            X = np.asarray(arrays.raw(arrays.asnd(X)) if d.sym else X, dtype=float)
+            out = np.zeros((len(X), self.n_components))
+            for i, r in enumerate(X):
+                out[i] = MENU[d.choose(f"resp[{float(r[0])}]", [0, 1, 2]) if f"resp[{float(r[0])}]" not in _RESP else _RESP[f"resp[{float(r[0])}]"]]
+                _RESP.setdefault(f"resp[{float(r[0])}]", MENU.index(tuple(out[i])))
+            return arrays.SymNd(out) if d.sym else out
+    _RESP = {}
+    return StubMixture(n_components=n_components)
+
+
+def sc_mixture(d, n, nq, K, cls_order, weights, prior, cost):
+    from skactiveml.classifier import MixtureModelClassifier
+    classes = CLASS_SETS[cls_order][:K]
+    idx = [d.choose(f"label{i}", [-1] + list(range(K))) for i in range(n)]
+    y = d.arr([NAN if k < 0 else classes[k] for k in idx])
+    X = d.arr([[float(i)] for i in range(n)], shape=(n, 1))      # concrete rows: the mixture stub is keyed by the row
+    sw = d.arr([d.fl(f"w{i}", lo=0.0, hi=4.0) for i in range(n)]) if weights else None
+    C = None
+    if cost:
+        C = [[0.0 if a == b else float(1 + ((2 * a + b) % 3)) for b in range(K)] for a in range(K)]   # asymmetric, zero diagonal
+    seed = d.integer("seed", 0, 2 ** 31 - 2)
+    clf = MixtureModelClassifier(mixture_model=_stub_mixture(d, 2), classes=classes, class_prior=prior, cost_matrix=C, random_state=seed)
+    try:
+        clf.fit(X, y, sw)
+        Xq = d.arr([[float(d.choose(f"query_row{i}", [0, 5]))] for i in range(nq)], shape=(nq, 1))   # a training row or a new one
+        P = clf.predict_proba(Xq)
+        pred = clf.predict(Xq)
+    except (core.Unencodable, core.PathAbort):
+        raise
+    except Exception as e:
+        d.prove(False, "mixture:fit_predict_succeed", info=dict(error=repr(e)[:160]))
+        return
+    cs = sorted(classes)
+    d.prove(tuple(np.shape(P)) == (nq, K), "mixture:proba_shape", info=dict(shape=list(np.shape(P))))
+    if tuple(np.shape(P)) != (nq, K):
+        return
+    flat = d.flat(P)
+    lab = [k for k in idx if k >= 0]
+    for i in range(nq):
+        row = flat[i * K:(i + 1) * K]
+        tot = 0.0
+        for v in row:
+            d.prove(d.le(0, v), "mixture:proba_non_negative")
+            tot = tot + v
+        d.prove(d.eq(tot, 1.0, 1e-9), "mixture:rows_sum_to_one")
+        if not lab and not prior:
+            for v in row:
+                d.prove(d.eq(v, 1.0 / K, 1e-12), "mixture:uniform_without_labels")
+    order = [classes.index(v) for v in cs]           # cost matrix is given in the order of `classes`
+    Cs = [[(C[order[a]][order[b]] if C else (0.0 if a == b else 1.0)) for b in range(K)] for a in range(K)]
+    for i, v in enumerate(d.flat(pred)):
+        member = [cv for cv in cs if (float(v) == cv if not core.is_sym(v) else False)]
+        d.prove(bool(member), "mixture:predict_returns_member_of_classes")
+        if not member:
+            continue
+        p = cs.index(member[0])
+        row = flat[i * K:(i + 1) * K]
+
+        def exp_cost(k):
+            acc = 0.0
+            for a in range(K):
+                acc = acc + row[a] * Cs[a][k]
+            return acc
+        for k in range(K):
+            d.prove(d.le(exp_cost(p), exp_cost(k) + 0.0), "mixture:predict_minimises_expected_cost", info=dict(predicted=cs[p], other=cs[k]))
+    d.witness(bool(lab) and len(set(lab)) < K, "some_class_unobserved")
+    d.witness(not lab, "no_labels")
+
+
+HARNESSES.append(dual_harness(
+    "mixture_model_classifier", sc_mixture,
+    lambda tier: [dict(n=2, nq=1, K=K, cls_order=o, weights=w, prior=pr, cost=cm)
+                  for K, o in ((2, "sorted"), (3, "cyclic")) for w in (False, True) for pr in (0.0, 0.5) for cm in (False, True)
+                  if tier != "quick" or (w, pr, cm) in ((False, 0.0, False), (True, 0.5, True), (True, 0.0, True))],
+    ["skactiveml.classifier._mixture_model_classifier:MixtureModelClassifier.fit",
+     "skactiveml.classifier._mixture_model_classifier:MixtureModelClassifier.predict_freq",
+     "skactiveml.base:ClassFrequencyEstimator.predict_proba", "skactiveml.base:SkactivemlClassifier.predict",
+     "skactiveml.utils._aggregation:compute_vote_vectors"],
+    required_witnesses=("some_class_unobserved", "no_labels"), timeout_ms=30000))
